@@ -138,7 +138,7 @@ Proof. vm_compute. reflexivity. Qed.
 Example ex_noninteger_size : py_int "1.5" = None /\ py_int "" = None /\ py_int "1__0" = None /\
   py_int " +1_0 " = Some 10 /\ py_int "-3" = Some (-3).
 Proof. repeat split; vm_compute; reflexivity. Qed.
-Example ex_foreign_size : has_char "." "1.5" = true /\ int_char "." = false.
+Example ex_foreign_size : has_char "."%char "1.5" = true /\ int_char "."%char = false.
 Proof. split; reflexivity. Qed.
 Example ex_unknown_unit : (forall v, v <> Eternity -> "years" <> unit_name v) /\
   parse_period "years:2014" = Err EPeriod.
